@@ -88,7 +88,7 @@ def c16_d(ctx):
 
 
 # ================================================================ C09
-@rule("C09", "C09-G1", 4, "every overlap count returned by the coalescing helper reaches the new-bytes result of the insert operation")
+@rule("C09", "C09-G1", 4, "every overlap count returned by the coalescing helper reaches the new-bytes result of the insert operation", also=("C20",))
 def c09_g1(ctx):
     f = ctx.one("C09-G1", "segments::Segments::merge")
     helper = ctx.one("C09-G1", "segments::merge")
